@@ -26,7 +26,9 @@ func (core *JApiCore) processContext(d *directive.Directive, root *[]*directive.
 				core.currentContextDirective.Type() == directive.URL
 
 			if isURL {
-				if core.currentContextDirective.HasExplicitContext {
+				// The directive becomes a new root, i.e. every open context is left: that
+				// must not silently close an explicit one (of the URL or of any its ancestor).
+				if core.HasUnclosedExplicitContext() {
 					return d.KeywordError(fmt.Sprintf(
 						"%s %q with the \"Path\" parameter",
 						jerr.IncorrectDirectiveContext,
